@@ -33,6 +33,8 @@ name = None
 if "--name" in args:
     i = args.index("--name"); name = args[i + 1]; del args[i:i + 2]
 src, pid, extra = os.path.abspath(args[0]), args[1], args[2:]
+if not name and os.path.basename(src).startswith(pid + "-"):
+    name = os.path.basename(src)[len(pid) + 1:]
 name = name or os.path.basename(os.path.dirname(os.path.dirname(src)))
 head = sh("git -C /repo rev-parse HEAD").stdout.strip()
 if not os.path.isdir(WT):
@@ -40,7 +42,7 @@ if not os.path.isdir(WT):
     assert r.returncode == 0, r.stderr
 sh("git checkout -q -- . && git clean -fdq -e target -e delta.orig", cwd=WT)
 sh(f"git checkout -q --detach {head}", cwd=WT)
-res = dict(property=pid, source=src, base=head[:7], at=time.strftime("%H:%M"))
+res = dict(property=pid, name=name, source=src, base=head[:7], at=time.strftime("%H:%M"))
 b0 = sh("cargo build --offline 2>&1 | tail -2", cwd=WT)
 assert "Finished" in b0.stdout, b0.stdout
 orig = os.path.join(WT, "delta.orig")
@@ -62,12 +64,13 @@ res["confirmed"] = ok
 if ok:
     dst = os.path.join(ROOT, "seeded", pid + "-" + name)
     os.makedirs(dst, exist_ok=True)
-    for f in os.listdir(src):
+    for f in ([] if os.path.realpath(src) == os.path.realpath(dst) else os.listdir(src)):
         if f not in ("delta.changed",) and os.path.isfile(os.path.join(src, f)) and os.path.getsize(os.path.join(src, f)) < 2_000_000:
             shutil.copy(os.path.join(src, f), dst)
     # the patch as it applies to the current main
+    newpatch = sh("git diff", cwd=WT).stdout
     with open(os.path.join(dst, "patch.diff"), "w") as f:
-        f.write(sh("git diff", cwd=WT).stdout)
+        f.write(newpatch)
     res["stored"] = os.path.relpath(dst, ROOT)
     checks = {}
     for c in [pid] + extra:
